@@ -8,4 +8,5 @@
 EXTENDS OverlayImpl
 \* two top-level names, children only under "a" (the prototype universe of DESIGN A.2)
 MCPaths == {<<"a">>, <<"b">>, <<"a", "a">>, <<"a", "b">>}
+MCPathsQ == {<<"a">>, <<"b">>, <<"a", "a">>}      \* quick configuration
 =============================================================================
